@@ -236,7 +236,7 @@ def _stack_parts(k):
     return out
 
 
-@lemma('E-stack', 'C06', quick=_stack_parts(2) + [dict(p, M=2) for p in _stack_parts(3)] + [dict(p, M=1, live=True) for p in _stack_parts(5)],
+@lemma('E-stack', 'C06', quick=_stack_parts(2) + [dict(p, M=2) for p in _stack_parts(3)] + [dict(p, M=2, live=True, timeout=1500) for p in _stack_parts(4)] + [dict(p, M=1, live=True) for p in _stack_parts(5)],
        thorough=_stack_parts(2) + [dict(p, M=7, timeout=5000) for p in _stack_parts(3)] + [dict(p, M=2, live=True, timeout=5000) for p in _stack_parts(4)]
        + [dict(p, M=2, live=True, timeout=5000) for p in _stack_parts(5)] + [dict(p, M=1, live=True, timeout=5000) for p in _stack_parts(6)],
        timeout=900, per_path=60,
